@@ -29,12 +29,12 @@ RULE = ("A: deterministic boundary grid (-1,0,len-1,len,cap,cap+1,2^31-1,2^31,2^
         "integer kind for / and %) + seeded random fill; non-trivial = operand within 1 of a boundary; distinct by (op, operands). "
         "B: defer programs from the model AST (1-5 functions, closures nested <= 6, <= 4 defers per frame, recover at call depth 0/1/2 "
         "below the deferred function, re-panic, panic inside deferred functions, named results, Goexit, run in a non-main goroutine, "
-        "13 run-time error kinds), three code-generation flavours (non-blocking, blocking helper, all functions blocking); "
+        "13 run-time error kinds, statements that REALLY suspend the goroutine in bodies and deferred calls), three code-generation flavours (non-blocking, blocking helper, all functions blocking); "
         "non-trivial = at least one panic and one defer; distinct by (program, flavour)")
 TRUSTED = ["hand-written models coq/Model/C08_Guards.v and coq/Model/C08_Panic.v, tied by this correspondence",
            "the JS call depth is modelled by an explicit frame counter; the real measurement (new Error().stack line count) is not modelled",
            "IEEE division of two integers below 2^32 truncated by >>0 equals Z.quot (value part of the QUO guard; exactness is C06's subject)",
-           "blocking/resuming paths of $callDeferred ($curGoroutine.asleep, r.$blk) and foreign JavaScript exceptions are not modelled",
+           "blocking/resuming paths of $callDeferred ($curGoroutine.asleep, r.$blk) are not modelled in ImplPanic: a statement that really suspends is a no-op in both models, so the real suspension paths are checked differentially only (against native Go and against the models); foreign JavaScript exceptions are not modelled",
            "harness/js/c08_guards.js stub operands; harness/py/c08_gen.py Go printer and trace parser; native Go 1.23 as reference for the spec side"]
 ASSUMPTIONS = ["guard operands are integers produced by the compiler's %f formatting; comparisons are exact below 2^53 and order-preserving above",
                "constant indices into arrays are range-checked by go/types at compile time (no guard is emitted)",
@@ -658,8 +658,8 @@ def defer_programs(ctx):
     def run_shard(s):
         k, cs = s
         return k, len(cs), coq_eval(ctx, "b_%d" % k, "Definition cases : list bcase := [\n" + ";\n".join(cs) + "].\n",
-                                    [("MI", "bmismatches_impl cases"), ("MS", "bmismatches_spec cases"), ("CL", "bclasses cases"), ("BF", "bblockflags cases")])
-    impl_bad, spec_bad, evaluated, blockflag = set(), set(), set(), set()
+                                    [("MI", "bmismatches_impl cases"), ("MS", "bmismatches_spec cases"), ("CL", "bclasses cases"), ("BF", "bblockflags cases"), ("BG", "bblockflags2 cases")])
+    impl_bad, spec_bad, evaluated, blockflag, blockflag2 = set(), set(), set(), set(), set()
     for k, n, (res, log) in C.parallel_map(run_shard, shards):
         if res is None:
             if infra(None, log):
@@ -670,6 +670,7 @@ def defer_programs(ctx):
         impl_bad |= {idxmap[k + j] for j in res["MI"]}
         spec_bad |= {idxmap[k + j] for j in res["MS"]}
         blockflag |= {idxmap[k + j] for j in res["BF"]}
+        blockflag2 |= {idxmap[k + j] for j in res["BG"]}
         for j, c in enumerate(res["CL"]):
             results[idxmap[k + j]]["_class"] = c
             evaluated.add(idxmap[k + j])
@@ -690,6 +691,12 @@ def defer_programs(ctx):
                           "a deferred call really blocks while a panic is in flight and the panic is then recovered by a deferred call of an outer frame: "
                           "the inner function returns normally and its caller's body continues after the call", rep)
             continue
+        if res.get("_differs") and i in blockflag2 and i not in spec_bad:
+            nknown += 1
+            ctx.violation("replaced-panic-resurrected-when-deferred-call-blocks",
+                          "a panic is replaced by a panic raised in a deferred call and a deferred call really blocks while the replacement is handled: "
+                          "the aborted panic is re-queued because the goroutine goes to sleep, and comes back after the replacement was recovered", rep)
+            continue
         if res.get("_differs"):
             if cl is None:
                 note_skip(ctx, "defer program %d differs from Go but the models could not be evaluated" % i)
@@ -708,6 +715,7 @@ def defer_programs(ctx):
             ctx.violation("specpanic-vs-native-go", "SpecPanic (Coq Go-specification machine) and native Go disagree", rep, concrete=False)
     dist["model_classes"] = {str(k): v for k, v in sorted(classes.items())}
     dist["programs_in_blocked_panic_class"] = len(blockflag)
+    dist["programs_in_blocked_replaced_panic_class"] = len(blockflag2)
     dist["programs_differing_from_go_as_predicted"] = nknown
     ctx.cov["b_distribution"] = dist
     ctx.cov["b_programs"] = len(progs)
@@ -773,14 +781,15 @@ def _fix(s):
 
 TECHNIQUE = ("Coq proofs about an executable model of every emitted run-time check and of the $callDeferred/$panic/$recover unwinding machine "
              "+ differential correspondence (real prelude in node, compiled programs, native Go)")
-LEVEL_TEXT = ("Part A: for every guard (index, 2/3-index slice, string slice, make slice/map/chan, integer / and %, slice->array pointer) a machine-checked "
+LEVEL_TEXT = ("Part A: for every guard (index incl. strings, 2/3-index slice, string slice, make slice/map/chan, integer / and %, slice->array pointer) a machine-checked "
               "theorem over unbounded integer operands that the emitted check fires exactly when the Go specification requires a panic and otherwise yields "
-              "Go's value; s[low:] and s[i] on strings are refuted on exactly their defective input classes. Part B: the Go-specification machine (SpecPanic) "
-              "and a transliteration of $callDeferred/$panic/$recover + the try/catch/finally epilogue (ImplPanic, two variants selected by probing the source) "
-              "as executable Coq models; machine-checked: for every program, fuel and variant the deferred calls of ImplPanic run in LIFO order and at most once; "
-              "the numeric stack-depth test of $recover is equivalent to 'called directly by the deferred function the panic sequence invoked'; on 201 322 "
-              "exhaustively enumerated programs ImplPanic equals SpecPanic and every pushed deferred call runs exactly once; the full refinement is refuted by "
-              "concrete programs (replaced panic, Goexit, skipped deferred call, incomplete Goexit repair). Both models are tied to /repo on every run.")
+              "Go's value. Part B: the Go-specification machine (SpecPanic) and a transliteration of $callDeferred/$panic/$recover + the try/catch/finally "
+              "epilogue (ImplPanic, with one variant flag per repaired finding, selected by probing the source) as executable Coq models; machine-checked: "
+              "for every program, fuel and variant the deferred calls of ImplPanic run in LIFO order and at most once; the numeric stack-depth test of $recover "
+              "is equivalent to 'called directly by the deferred function the panic sequence invoked'; on 334 408 exhaustively enumerated programs (nested "
+              "defers, recover at several depths, replaced panics, re-panic, named results, Goexit across frames and mixed with panics) ImplPanic of the current "
+              "tree equals SpecPanic and every pushed deferred call runs exactly once. Both models are tied to /repo on every run.")
 LEVEL_NOTE = ("Proofs are about hand-written models; the tie is differential (real vs ImplPanic and native Go vs SpecPanic must agree on every generated program). "
-              "impl_refines_spec_panic, defer_lifo_once (completeness) and recover_legal_iff hold only as _partial theorems; the full statements are kept visible "
-              "and are false on the recorded findings. Blocking/resume paths of $callDeferred and the real stack-depth measurement are not modelled.")
+              "impl_refines_spec_panic, completeness of defer_lifo_once and recover_legal_iff are _partial (bounded enumeration / arithmetic core): no unbounded "
+              "simulation proof. Suspension (a deferred call that blocks) is outside the models; generated programs exercise it against native Go, where two "
+              "recorded findings remain.")
